@@ -270,7 +270,9 @@ pub fn iotrack_available() -> bool {
 }
 
 fn power_case() -> impl Strategy<Value = PowerCase> {
-	(crash_scenario(3, 4, 12, true, 40_000), any::<u64>()).prop_map(|(mut sc, sample_seed)| {
+	// one history in five grows the index (key sets crowded into one index page, reindex steps),
+	// so that older index generations receive writes too
+	(prop_oneof![4 => crash_scenario(3, 4, 12, true, 40_000).boxed(), 1 => super::c09::scenario(10, 200).boxed()], any::<u64>()).prop_map(|(mut sc, sample_seed)| {
 		// the property is about power loss with the sync options on
 		sc.cfg.sync_data = true;
 		PowerCase { sc, sample_seed, only: None }
